@@ -25,6 +25,22 @@ def templates(r, cmd):
             cmd + "x", cmd + "{z}", cmd + "^2", cmd + "_i", "n" + cmd + "10"]
 
 
+def prefix_pairs():
+    """Texts holding a command and a longer command it is a prefix of (mapped or unknown), in both orders."""
+    out = []
+    letter = sorted(k for k in KEYS if is_letter_command(k) and "{" not in k)
+    for a in letter:
+        for b in letter:
+            if b != a and b.startswith(a) and b[len(a):].isalpha():
+                out.append(f"{a} and {b}")
+                out.append(f"{b} and {a}")
+    for a in ("\\alpha", "\\pm", "\\in"):
+        a = a.replace("\\\\", "\\")
+    out += ["\\alphabet and \\alpha".replace("\\\\", "\\"), "x >= 1, y \\geqslant 2".replace("\\\\", "\\"),
+            "\\cdot then \\cdots".replace("\\\\", "\\")]
+    return out
+
+
 SPECIALS = ["x^2", "a_i", "a>=b", "a <= b", ">=", "<=5", "line1\nline2", "Page \\pagenumber of \\totalpage", "\\pagefield", "p\\pagenumber.",
             "x^2_i>=3", "\\foo", "\\foo12 bar", "\\foo bar", "\\unknowncmd{arg}", "plain text only", "a{b}c", "50% (n=3)", "\\%", "tab\\'x"]
 
@@ -107,12 +123,12 @@ def run(ctx):
             # every key once (template drawn at random), plus specials and random probes
             keys = KEYS[:]
             r.shuffle(keys)
-            texts = [r.choice(templates(r, k)) for k in keys] + SPECIALS * 2 + probe_texts(r, 60)
+            texts = [r.choice(templates(r, k)) for k in keys] + SPECIALS * 2 + probe_texts(r, 60) + prefix_pairs()
         else:
             texts = []
             for k in KEYS:
                 texts.extend(templates(r, k))
-            texts += SPECIALS * 3 + probe_texts(r, 400)
+            texts += SPECIALS * 3 + probe_texts(r, 400) + prefix_pairs()
         for i in range(0, len(texts), 40):
             docs.append((f"d{i}", make_doc(r, texts[i:i + 40])))
     failures = []
